@@ -169,7 +169,7 @@ def RenameInAnnotation(line, m):
 
 # ---- C08: plan-selecting annotations ----------------------------------------------------
 
-PLANS = ['none', 'noinject', 'with', 'nowith', 'ground']
+PLANS = ['none', 'noinject', 'with', 'nowith', 'ground', 'noinject_nowith']
 
 
 def Intermediates(prog, query_all=True):
@@ -197,6 +197,10 @@ def Annotate(prog, assignment):
       ann.append('@NoWith(%s);' % name)
     elif plan == 'ground':
       ann.append('@Ground(%s);' % name)
+    elif plan == 'noinject_nowith':
+      # an otherwise injectible predicate compiled as an inline subquery
+      ann.append('@NoInject(%s);' % name)
+      ann.append('@NoWith(%s);' % name)
   p['ann'] = ann
   return p
 
